@@ -1743,7 +1743,7 @@ class Model:
                     raise RaiseSignal('StopIteration', node, interp.where(node)) from None
             if isinstance(it, list | tuple | dict | str | set):
                 raise RaiseSignal('TypeError', node, interp.where(node), (f"'{type(it).__name__}' object is not an iterator",))
-        if name in ('map', 'filter') and len(args) >= 2 and not any(isinstance(a, Opaque | SVar) for a in args[1:]):
+        if name in ('map', 'filter') and len(args) >= 2 and not any(isinstance(a, Opaque) for a in args[1:]):
             # iterators: the function runs when an element is asked for, the sources are read only as far as the reader goes
             from .interp import LazyGen
             f = args[0]
